@@ -42,7 +42,7 @@ class Jet:
 
 
 class Evt:
-    def met(self) -> int: ...  # noqa
+    def met(self, a: int = 4) -> int: ...  # noqa
 
     def jets(self) -> Iterable[Jet]: ...  # noqa
 
@@ -60,6 +60,17 @@ def type_str(t):
     if isinstance(t, type):
         return t.__name__
     return str(t)
+
+
+def _qval(x):
+    """query-metadata value as the model sees it: unset (None) = 0, the falsy value 0 = 3"""
+    if x is None:
+        return 0
+    return 3 if x == 0 else x
+
+
+def _pyval(v):
+    return 0 if v == 3 else v
 
 
 def _derive(stream, op, term, how):
@@ -154,7 +165,7 @@ class History:
                     "tid": self.tid, "step": step, "a": a,
                     "views": [codec.enc(s.query_ast) for s in self.streams],
                     "types": [type_str(s.item_type) for s in self.streams],
-                    "lookups": [[(lookup_query_metadata(s, k) or 0) for k in KEYS] for s in self.streams],
+                    "lookups": [[_qval(lookup_query_metadata(s, k)) for k in KEYS] for s in self.streams],
                     "newexec": newexec, "done": done, "exc": exc,
                     "roots": [self._root_of(s) for s in self.streams],
                     "mix": self._mix() if step == len(self.actions) else [],
@@ -225,10 +236,10 @@ class History:
             self.streams.append(s.MetaData(d))
             self.shadow.append(sh.MetaData(d))
         elif act == "QMetaData":
-            self.streams.append(s.QMetaData({a["k"]: a["v"]}))
+            self.streams.append(s.QMetaData({a["k"]: _pyval(a["v"])}))
             self.shadow.append(sh)
         elif act == "QMetaData2":
-            self.streams.append(s.QMetaData({"a": a["v"], "b": a["c"]}))
+            self.streams.append(s.QMetaData({"a": _pyval(a["v"]), "b": _pyval(a["c"])}))
             self.shadow.append(sh)
         elif act == "Terminal":
             self.streams.append(s.AsAwkwardArray(["c"]))
